@@ -11,7 +11,7 @@
 (* Every intermediate value stays below 2^31 for LBits <= 16 and small     *)
 (* factors <= 32767.                                                       *)
 (***************************************************************************)
-EXTENDS Integers, Sequences, TLC
+EXTENDS Integers, Sequences, SequencesExt, TLC
 
 CONSTANT LBits
 Base == 2^LBits
@@ -115,17 +115,15 @@ TzLimbs(a, i) == IF a[i] # 0 THEN i - 1 ELSE TzLimbs(a, i + 1)
 TzInt(n) == CHOOSE k \in 0..(LBits - 1) : n % 2^k = 0 /\ (n \div 2^k) % 2 = 1
 TrailZeros(a) == LET q == TzLimbs(a, 1) IN q * LBits + TzInt(a[q + 1])
 
+(* Long loops use FoldLeft (iterated by TLC in Java): a TLA+ recursion of   *)
+(* depth ~1000 over growing numbers is slower by orders of magnitude.      *)
 (* digits (most significant first) in a radix <= 36 *)
-RECURSIVE DigitsFrom(_, _, _, _)
-DigitsFrom(ds, radix, i, acc) ==
-  IF i > Len(ds) THEN acc ELSE DigitsFrom(ds, radix, i + 1, MulAdd(acc, radix, ds[i]))
-FromDigits(ds, radix) == DigitsFrom(ds, radix, 1, Zero)
+FromDigits(ds, radix) == FoldLeft(LAMBDA acc, dg : MulAdd(acc, radix, dg), Zero, ds)
 
 (* a * 10^k = (a * 5^k) * 2^k *)
-RECURSIVE MulPow5(_, _)
-MulPow5(a, k) == IF k = 0 THEN a
-                 ELSE IF k >= 6 THEN MulPow5(MulSmall(a, 15625), k - 6)
-                 ELSE MulPow5(MulSmall(a, 5), k - 1)
+MulPow5(a, k) ==
+  LET big == FoldLeft(LAMBDA acc, i : MulSmall(acc, 15625), a, [i \in 1..(k \div 6) |-> i])
+  IN FoldLeft(LAMBDA acc, i : MulSmall(acc, 5), big, [i \in 1..(k % 6) |-> i])
 MulPow10(a, k) == Shl(MulPow5(a, k), k)
 
 (* general product, b short: schoolbook over the half limbs of b *)
